@@ -44,7 +44,7 @@ package yae
 //@   ensures err == nil ==> envOK(env0, env)
 
 //@ closure (*Expr).makeCallable$1
-//@   props C07 C12
+//@   props C07 C12 C16
 //@   requires e != nil && closure != nil && env0 != nil
 //@   modifies all
 //@   at call dyn: assert #checked-first envOK(env0, env1)
